@@ -1532,6 +1532,16 @@ def convert_from_interleaved(args):
         eq += "->" + "".join(
             "..." if ix is ... else symbol_map[ix] for ix in args[-1]
         )
+    else:
+        # the implicit output is sorted by *label*, whereas the symbols
+        # above are assigned in order of appearance, so make it explicit
+        labels = [ix for term in inputs for ix in term if ix is not ...]
+        output = sorted(ix for ix in set(labels) if labels.count(ix) == 1)
+        if len(labels) != sum(map(len, inputs)):
+            # ellipsis dimensions always come first
+            eq += "->..." + "".join(symbol_map[ix] for ix in output)
+        else:
+            eq += "->" + "".join(symbol_map[ix] for ix in output)
     return eq, arrays
 
 
